@@ -669,6 +669,9 @@ def nt_family():
                 H("c12_gcd_ext_large_word_%d_b%d_%s" % (n, b, "ba" if sw else "ab"), "h_nt::gcd_ext_large_word::<%d,%d>(%d,%s)" % (n, n + 2, b, "true" if sw else "false"),
                   TH("C12"), unwind=80,
                   bound="gcd_ext of %d structured words and the literal word %d: divisibility and Bezout identity with signs" % (n, b))
+    for b in (12, 10, 1024, 3):
+        H("k_gcd_ext_word_3_b%d" % b, "h_nt::k_gcd_ext_word::<3,4>(%d)" % b, Q("C12") if b in (12, 10) else TH("C12"), unwind=12,
+          bound="kernel gcd_ext_word: every 3-word value against the literal word %d: Bezout identity with signs" % b)
     for f in (2, 8, 3, 10):
         H("c12_remove_%d" % f, "h_nt::remove_small(12,%d)" % f, Q("C12") if f in (2, 8) else TH("C12"), "i64", unwind=24, bound="UBig::remove(%d) for every non-zero value below 2^12" % f)
 
@@ -822,6 +825,20 @@ def demote_slow(limit=75.0):
                     e["props"][prop] = "thorough"
 
 
+def mark_candidates():
+    """thorough = harnesses that a calibration run on the unchanged tree has already decided (they have an entry in
+    timings.json); instances never run so far are 'cand'idates: ./check <ID> --tier cand decides them and
+    tools/collect_timings.py then promotes the decided ones into the thorough tier"""
+    import os, json
+    path = os.path.join(os.path.dirname(os.path.abspath(__file__)), "timings.json")
+    t = json.load(open(path)) if os.path.exists(path) else {}
+    for e in T:
+        if e["name"] not in t:
+            for prop in list(e["props"]):
+                if e["props"][prop] == "thorough":
+                    e["props"][prop] = "cand"
+
+
 def thin():
     """secondary properties (C15 forms, C17 invariants, C16 panics) ride on the harnesses of the arithmetic
     families; in the quick tier they keep a deterministic quarter of those (all of them in thorough)"""
@@ -857,4 +874,5 @@ def build():
     thin()
     demote_slow()
     demote_probes()
+    mark_candidates()
     return T
